@@ -379,6 +379,13 @@ func c05Corpus(thorough bool) []c05Prog {
 	} {
 		out = append(out, c05Prog{name: fmt.Sprint("F", i), decls: fDecl, rules: rules, facts: fFacts, preds: []string{"e", "q", "c", "d", "w", "s"}})
 	}
+	// predicates without arguments, positive and negated, with their facts among the base facts (in the merged-file
+	// variant they sit in the file-backed read store) and without them
+	zDecl := []string{"Decl item(A).", "Decl flag().", "Decl lamp()."}
+	for i, facts := range [][]string{{"item(1).", "item(2).", "flag()."}, {"item(1).", "item(2)."}, {"item(1).", "flag().", "lamp()."}} {
+		out = append(out, c05Prog{name: fmt.Sprint("Z", i), decls: zDecl, rules: []string{"blocked(X) :- item(X), flag().", "deliverable(X) :- item(X), !flag().", "both() :- flag(), lamp().", "dark(X) :- item(X), !lamp(), !both()."},
+			facts: facts, preds: []string{"item", "flag", "lamp", "blocked", "deliverable", "both", "dark"}})
+	}
 	// aggregation
 	ar := gen.AggRules([]string{"fn:count()", "fn:sum(V)", "fn:collect_distinct(V)", "fn:max(V)"})
 	for i := 0; i < len(ar); i++ {
